@@ -28,6 +28,14 @@
      d2l d2r (x op y) op2 z  /  z op2 (x op y): nested operations (temporaries on the stack / the x87
              register stack, operand order at depth 2); op in + - /, op2 in - / *; the case's "b" is op2
 
+   Every vector also says whether one of its operands or its result is a *special* floating
+   value (sp: -0, NaN, an infinity or a subnormal).  The replay embeds each vector in several
+   program contexts (operands from memory; constants in a run-time expression; static
+   initializer; element initializer of an automatic array / nested array / array member of a
+   struct / designated element / block-scope compound literal - 6.7.9, 6.5.2.5); special
+   vectors are replayed in every context in both tiers, because that is where an
+   "optimised" initializer or constant path loses a sign bit or a payload.
+
    Seed/Stride subsample the large families (arith cmp truth-binary dec hex mixed) for the
    quick tier; conv, neg, the unary truth tests and vararg are always complete.
    The guard is evaluated before any wide arithmetic.                                    *)
@@ -231,6 +239,10 @@ Expect(ii, jj) ==
              IN R(TRUE, a, IF fam = "d2l" THEN Arith(F, b, in, z) ELSE Arith(F, b, z, in))
     [] fam = "vararg" -> R(TRUE, ArgPromote(a), FloatToFloat(Fmt(ArgPromote(a)), Tab(a)[ii]))
 
+(* -0, NaN, infinities and subnormals: the values whose object representation is not determined by
+   "the number" alone, or that an implementation is tempted to treat as 0 *)
+IsSpecial(t, v) == IsF(t) /\ (v.k \in {"nan", "inf"} \/ (v.k = "zero" /\ v.s = 1)
+                              \/ (v.k = "fin" /\ XBitLen(v.m) < Fmt(t).p))
 EmitR(r, ii, jj) ==
   IF ~r.ok THEN FALSE
   ELSE CSVWrite("%1$s", <<ToJson([f |-> fam, op |-> op, at |-> a, bt |-> IF D2 THEN a ELSE b, rt |-> r.t, sz |-> SizeOf(r.t),
@@ -240,6 +252,10 @@ EmitR(r, ii, jj) ==
                                           ELSE IF D2 THEN ValBytes(a, Tab(a)[jj]) ELSE ValBytes(b, Tab(b)[jj]),
                                    rb |-> ValBytes(r.t, r.v),
                                    rn |-> IsF(r.t) /\ r.v.k = "nan",
+                                   sp |-> \/ IsSpecial(r.t, r.v)
+                                          \/ (fam \notin {"dec", "hex"} /\ IsSpecial(a, Tab(a)[ii]))
+                                          \/ (~Unary /\ fam \notin {"dec", "hex"} /\ IsSpecial(IF D2 THEN a ELSE b, Tab(IF D2 THEN a ELSE b)[jj]))
+                                          \/ (D2 /\ IsSpecial(a, Tab(a)[ZIdx(ii, jj)])),
                                    man |-> CASE fam = "dec" -> Str(DecMan[ii]) [] fam = "hex" -> Str(HexMan[ii]) [] OTHER -> "",
                                    ex |-> CASE fam = "dec" -> DecExp[jj] [] fam = "hex" -> HexExp[jj] [] OTHER -> 0,
                                    i |-> ii, j |-> jj])>>, IOEnv.OUT)
